@@ -11,7 +11,7 @@ class C11(MetricsCheck):
             "DRAM, cache, lazy/eager buffets, compute, the three intersector types, sequencers) x hash-seed pool (metrics "
             "text differs under almost every seed). Each accepted spec is compiled in metrics mode and, with architecture/"
             "bindings/format dropped, in plain mode; both run on identical inputs with inert stand-ins. Oracle: identical "
-            "tensors under every common <Name>_<Ranks> name, every output equal to the dense model, metrics text closed and "
+            "tensors under every common <Name>_<Ranks> name, every explicit shape= entry equal to the extent of its rank, every output equal to the dense model, metrics text closed and "
             "identical on recompilation in the same process. distinct = distinct (spec, metrics text); non-trivial = all")
     assumptions = ["stand-ins are inert with respect to data; leader-follower intersection is generated with the leader as the "
                    "first operand of its term only (payload order of Fiber.intersection otherwise is not modelled)"]
@@ -31,6 +31,11 @@ class C11(MetricsCheck):
         vs += common.exec_violations(oks)      # metrics-mode outputs == dense model
         if vs:
             return vs
+        for h, r in sorted(oks.items()):
+            for i, run in enumerate(r["runs"]):
+                if run["exec"] == "ok" and run.get("bad_shapes"):
+                    vs.append(common.Violation("explicit_shape_wrong", [h], {"input_set": i, "shapes": run["bad_shapes"]}))
+                    return vs
         for h, r in sorted(oks.items()):
             if r["twin_status"] != "ok":
                 vs.append(common.Violation("plain_twin_rejected", [h], {"reject": r["twin_reject"]}))
